@@ -92,7 +92,7 @@ func contentViols(ct string) []Viol {
 		{Name: "signature empty", All: []LP{A("+Empty(" + si + ".Signature)")}},
 		{Name: "algorithm missing", All: []LP{A("+Eq(" + si + ".SignatureAlgorithm, 0)")}},
 		{Name: "signing time missing", All: []LP{A("+TZero(" + st + ")")}},
-		{Name: "expiry not after signing time", All: []LP{A("-TZero(" + ex + ")"), AnyOf(A("+TLt("+ex+", "+st+")"), A("+TEq("+a+", "+b+")"))}},
+		{Name: "expiry not after signing time", All: []LP{A("-TZero(" + ex + ")"), AnyOf(A("+TLt("+ex+", "+st+")"), A("+TEq("+a+", "+b+")"), A("-TLt("+st+", "+ex+")"))}},
 		{Name: "signing scheme missing", All: []LP{A(`+Eq("", ` + si + ".SignedAttributes.SigningScheme)")}},
 	}
 	vs = append(vs, chainCheckViols(si+".CertificateChain", "nil", si+".SignatureAlgorithm")...)
